@@ -312,7 +312,31 @@ pub assume_specification[ std::fs::Metadata::len ](m: &std::fs::Metadata) -> (r:
 
 /// the path an OS-string-like value designates (`PathBuf::from(&T)`)
 pub uninterp spec fn os_path<T: ?Sized>(s: &T) -> PathV;
-pub open spec fn sb_path(s: &str) -> PathV { os_path::<str>(s) }
+/// the path written as the given text
+pub uninterp spec fn path_of_chars(c: Seq<char>) -> PathV;
+pub open spec fn sb_path(s: &str) -> PathV { path_of_chars(s@) }
+
+#[verifier::external_body]
+pub broadcast proof fn axiom_os_path_str(s: &str)
+    ensures
+        #[trigger] os_path::<str>(s) == path_of_chars(s@),
+{
+}
+
+#[verifier::external_body]
+pub broadcast proof fn axiom_os_path_string(s: &String)
+    ensures
+        #[trigger] os_path::<String>(s) == path_of_chars(s@),
+{
+}
+
+/// Path::join (std docs): `path` appended to `base`, or `path` itself when it is absolute
+pub uninterp spec fn join_v(base: PathV, ext: PathV) -> PathV;
+
+pub assume_specification<Q: core::convert::AsRef<std::path::Path>>[ std::path::Path::join::<Q> ](p: &std::path::Path, path: Q) -> (r: std::path::PathBuf)
+    ensures
+        pbv(&r) == join_v(pv(p), arp(path)),
+;
 
 pub assume_specification<'a, T: ?Sized + core::convert::AsRef<std::ffi::OsStr>>[ <std::path::PathBuf as core::convert::From<&'a T>>::from ](s: &T) -> (r: std::path::PathBuf)
     ensures
@@ -339,4 +363,12 @@ pub fn lines_next(l: &mut std::io::Lines<std::io::BufReader<std::fs::File>>) -> 
         read_ok() ==> !(r is Some && r->Some_0 is Err),
 {
     l.next()
+}
+
+/// `impl AsRef<Path> for String` / `str`: the path written as that text
+#[verifier::external_body]
+pub broadcast proof fn axiom_arp_string(q: String)
+    ensures
+        #[trigger] arp::<String>(q) == path_of_chars(q@),
+{
 }
